@@ -28,7 +28,8 @@ REQUIRED = {"select.deselected_not_called": {"quick": 3000, "thorough": 150000},
             "select.container_with_selected_not_skipped": {"quick": 500, "thorough": 25000},
             "local.unselected_run_emits_nothing": {"quick": 3000, "thorough": 150000},
             "nontrivial_cases": {"quick": 300, "thorough": 15000}}
-REQUIRED_SEEN = {"outline_tag_placeholder": ["<t>", "<row.index>", "<examples.index>", "<row.id>"], "dialect": ["v1", "v2", "none"]}
+REQUIRED_SEEN = {"outline_tag_placeholder": ["<t>", "<row.index>", "<examples.index>", "<row.id>"], "dialect": ["v1", "v2", "none"],
+                 "tag_name_class": ["contains_operator_word", "contains_hash"], "outline_name_schema": ["{name}", "{examples.name}"]}
 NSHARDS = {"quick": 16, "thorough": 16}
 
 
@@ -147,6 +148,45 @@ def two_selections(lab, mon, rng):
               lambda: RB.witness(case2, first_run_args=case1["args"], not_skipped={n: obs.elem_status.get(n) for n in bad[:6]}))
 
 
+NAME_SCHEMAS = [u"{name}", u"{name}", u"{name} [{row.id}]", u"{examples.name}", u"{name} -- @{row.id} {examples.name}"]
+
+
+def name_schema_runs(lab, mon, rng):
+    """The configured name schema for outline rows (scenario_outline_annotation_schema, e.g. the old '{name}' scheme under
+    which every row is called like its outline) has nothing to do with selection.  Rows are not identified by name here:
+    all steps pass, so the multiset of executed step texts must be the steps of exactly the selected instances."""
+    import collections
+    gen = {"p_tag": 0.7, "p_nonpass": 0.0, "max_rules": 2, "p_empty_examples": 0.0, "p_stepless": 0.0, "p_outline": 0.6, "p_param_tag": 0.3}
+    case = RB.gen_case(rng, gen=gen, p_stop=0.0, p_dry=0.0, p_noskipped=0.5, p_verbose=0.0)
+    tries = 0
+    while case["cfg"]["tags"] is None and tries < 5:
+        ast, args = RB.random_expr(rng)
+        case["cfg"]["tags"] = ast
+        case["args"] = args + [a for a in case["args"] if not a.startswith("--tags")]
+        tries += 1
+    schema = rng.choice(NAME_SCHEMAS)
+    for f in case["program"]["features"]:
+        f.pop("_text", None)
+
+    def pre_run(st):
+        lab._state = None
+    obs = lab.run(case["program"], args=case["args"], pre_run=pre_run, config_kwargs={"scenario_outline_annotation_schema": schema})
+    mon.case(("name-schema", schema, RB.strip_case(case)), True)
+    mon.seen("outline_name_schema", schema)
+    if obs.escaped is not None:
+        mon.check("select.no_exception_escapes", False, lambda: RB.witness(case, schema=schema, escaped=repr(obs.escaped)))
+        return
+    want = collections.Counter()
+    for f in case["program"]["features"]:
+        for inst in iter_scenario_instances(f):
+            if runmodel.formula_ok(case["cfg"], runmodel.eff_tags(inst)):
+                want.update(s["final"] for s in inst["steps"])
+    got = collections.Counter(t for _n, t in obs.calls)
+    mon.check("select.executed_steps_under_configured_row_names", got == want,
+              lambda: RB.witness(case, name_schema=schema, not_executed=sorted((want - got).elements())[:8],
+                                 executed_but_not_selected=sorted((got - want).elements())[:8]))
+
+
 def run(spec, mon):
     from ..lab.inproc import RunLab
     lab = RunLab()
@@ -170,7 +210,16 @@ def run(spec, mon):
             case["cfg"]["tags"] = ast
             case["args"] = args + [a for a in case["args"] if not a.startswith("--tags")]
             mon.seen("tag_name_class", "contains_operator_word")
-        if i % 3 == 0:
+        if i % 9 == 7:
+            # issue-reference style tag names with a '#' inside (@issue#12), next to ordinary tags on the same line
+            alt = ["issue#12", "c#", "a", "b", "bug#7.x"]
+            gen2 = dict(gen, tags=alt, tag_values=["a", "b"])      # (values rendered INTO a tag stay in the tag-safe alphabet)
+            case = RB.gen_case(rng, gen=gen2, p_stop=0.1, p_dry=0.15, p_noskipped=0.5)
+            ast, args = RB.random_expr(rng, tags=alt)
+            case["cfg"]["tags"] = ast
+            case["args"] = args + [a for a in case["args"] if not a.startswith("--tags")]
+            mon.seen("tag_name_class", "contains_hash")
+        if i % 3 == 0 and i % 9 != 7:
             # expressions that refer to tags rendered from the special placeholders <row.index> <examples.index> <row.id>
             ast, args = RB.random_expr(rng, tags=["a", "b", "c", "r1", "r2", "q1.1", "q1.2", "q2.1"])
             if ast is not None:
@@ -190,6 +239,9 @@ def run(spec, mon):
         run_case(lab, mon, case, sample=(i == 1 and spec["shard"] < 2))
         if i % 10 == 5:
             two_selections(lab, mon, rng)
+            lab._state = None
+        if i % 5 == 2:
+            name_schema_runs(lab, mon, rng)
             lab._state = None
 
 
